@@ -50,6 +50,8 @@ Fixpoint sorted_ins (a : N) (l : list N) : list N :=
   match l with [] => [a] | b :: r => if N.leb a b then a :: l else b :: sorted_ins a r end.
 Definition sortN (l : list N) := fold_right sorted_ins [] l.
 Definition b2n (b : bool) : N := if b then 1%N else 0%N.
+Fixpoint uniq (l : list N) : list N :=
+  match l with a :: ((b :: _) as r) => if N.eqb a b then uniq r else a :: uniq r | _ => l end.
 Definition has_bind (p : program) (ids : list N) : bool :=
   existsb (fun id => match find_occ id (occs_of p) with
                      | Some (o, _) => role_eqb (o_role o) Bind | None => false end) ids.
@@ -120,7 +122,7 @@ Definition chk_refs (c : program * list N * list N * list N * list N * N * N * l
   let '(p, params, ord, up, down, i, x, obs) := c in
   let spec := refs_ids p i in
   [b2n (name_in_fragment p x); b2n (has_bind p spec); b2n (nl_eqb (sortN spec) obs);
-   b2n (late_bound p x); b2n (param_rebound p x params); b2n (nl_eqb (sortN (refs_j p params ord up down i)) obs)].
+   b2n (late_bound p x); b2n (param_rebound p x params); b2n (nl_eqb (uniq (sortN (refs_j p params ord up down i))) obs)].
 Definition mkleaf (pv : str * str * bool) : leaf :=
   let '(p, v, s) := pv in {| l_prefix := p; l_value := v; l_sel := s |}.
 (* leaves (prefix, value, selected), new name, observed new text, old name *)
@@ -952,7 +954,7 @@ def run(ctx):
     byocc = {(m['prog'], m['occurrence']): i for i, m in enumerate(rmeta)}
     # what the transcription predicts where it differs from the observation (for the reports)
     ul = sorted(unpredicted)
-    pl, err = common.coq_eval_N_lists(IMPORTS, "(fun c => let '(p, params, ord, up, down, i, x, obs) := c in sortN (refs_j p params ord up down i))",
+    pl, err = common.coq_eval_N_lists(IMPORTS, "(fun c => let '(p, params, ord, up, down, i, x, obs) := c in uniq (sortN (refs_j p params ord up down i)))",
                                       [rcases[i] for i in ul], shard=600, defs='\n'.join(defs), timeout=2400)
     if err:
         raise RuntimeError('coq evaluation failed (prediction): ' + err)
